@@ -157,7 +157,7 @@ impl Property for C19 {
             .boxed()
     }
     fn cases(&self, tier: Tier) -> u32 {
-        tier.pick(3_000_000, 120_000_000)
+        tier.pick(6_000_000, 120_000_000)
     }
     fn max_shrink_iters(&self) -> u32 {
         2000
